@@ -59,6 +59,12 @@ func (e *Exec) call(fr *Frame, st *State, ins ssa.Instruction, cc *ssa.CallCommo
 		}
 		return e.callByContract(fr, st, ins, sp, callee, args, rtyp)
 	}
+	if e.eng.isPureExternal(name) || e.eng.isNoop(name) {
+		if e.pure > 0 {
+			return e.ufCall(st, callee, args, rtyp)
+		}
+		return e.unknownCall(fr, st, ins, name, rtyp, args)
+	}
 	if e.eng.inlinable(callee, e.pure > 0) {
 		return e.inline(fr, st, callee, args, bindings)
 	}
@@ -404,7 +410,7 @@ func (e *Exec) evalClauseAt(fr *Frame, cl Clause, st *State, results []Val) *Ter
 			args = append(args, results[p.Index])
 			oldArgs = append(oldArgs, results[p.Index])
 		case pkLocal:
-			a := e.eng.localAlloc(fr.fn, p.Pos)
+			a := e.eng.localAlloc(fr.fn, p)
 			if a == nil {
 				e.fail("clause %s: local %s not found", cl.Label, p.Name)
 			}
